@@ -32,7 +32,7 @@ theorem realTK_agree : TAgree realTK realT :=
     `terminal_absorbing` without `t.Ok`; instead the stored-`tRNS` shape `KeyInv r.dec`. -/
 theorem terminal_absorbing_real (cfg : Cfg) (r : R) (op : Op) (hI : Inv realT r) (hk : KeyInv r.dec)
     (hr : r.isReader = true) (hT : Terminal r) (hop : op.isCall = true) :
-    Terminal (step cfg realT r op).1 ∧ (step cfg realT r op).2.afterEnd op = true ∧
+    Terminal (step cfg realT r op).1 ∧ (step cfg realT r op).2.afterEnd op (r.sub.cur.isSome && r.sub.caf) = true ∧
     ((step cfg realT r op).2 = .done → op = .finish ∧ r.finished = false ∧ r.dec.state ≠ none) ∧
     (op ≠ .finish ∨ r.dec.state = none ∨ r.finished = true →
       (step cfg realT r op).1.dec = r.dec ∧ (step cfg realT r op).1.pos = r.pos) := by
@@ -45,7 +45,8 @@ theorem poisoned_absorbing_real (cfg : Cfg) (r : R) (op : Op) (hI : Inv realT r)
     (hr : r.isReader = true) (hd : r.dec.state = none) (hop : op.isCall = true) :
     (step cfg realT r op).1.dec = r.dec ∧ (step cfg realT r op).1.pos = r.pos ∧
     (step cfg realT r op).1.visible = r.visible ∧
-    ((step cfg realT r op).2.isErr = true ∨ (op.isRowCall = true ∧ (step cfg realT r op).2.isRowRes = true)) := by
+    ((step cfg realT r op).2.isErr = true ∨ (op.isRowCall = true ∧ (step cfg realT r op).2.isRowRes = true) ∨
+      (op.isFrameCall = true ∧ r.sub.cur.isSome = true ∧ r.sub.caf = true ∧ (step cfg realT r op).2.isFrame = true)) := by
   have h := poisoned_absorbing cfg realTK realTK_ok r op (hI.of_agree realT_agree) hr hd hop
   rw [step_agree realT_agree cfg r hk op] at h
   exact h
@@ -53,7 +54,11 @@ theorem poisoned_absorbing_real (cfg : Cfg) (r : R) (op : Op) (hI : Inv realT r)
 /-- **`ended_absorbing` for `Driver.realT`** (after the last frame, or after a `finish` that failed) -/
 theorem ended_absorbing_real (cfg : Cfg) (r : R) (hI : Inv realT r) (hk : KeyInv r.dec) (hr : r.isReader = true)
     (hrem : r.remaining = 0) (hcaf : r.sub.caf = true) :
-    (∀ p, step cfg realT r (.nextFrame p) = ({ r with pendingBuf := none }, .err .parameter "PolledAfterEndOfImage")) ∧
+    (∀ p, (r.sub.cur = none →
+        step cfg realT r (.nextFrame p) = ({ r with pendingBuf := none }, .err .parameter "PolledAfterEndOfImage")) ∧
+      Still r (step cfg realT r (.nextFrame p)).1 ∧
+      ((step cfg realT r (.nextFrame p)).2.isErr = true ∨
+        (r.sub.cur.isSome = true ∧ (step cfg realT r (.nextFrame p)).2.isFrame = true))) ∧
     step cfg realT r .nextFrameInfo = ({ r with pendingBuf := none }, .err .parameter "PolledAfterEndOfImage") ∧
     (Still r (step cfg realT r .nextRow).1 ∧ (step cfg realT r .nextRow).2.isRowRes = true) ∧
     (Still r (step cfg realT r .readRow).1 ∧ (step cfg realT r .readRow).2.isRowRes = true) ∧
@@ -98,7 +103,7 @@ theorem terminal_absorbing_reachable_real (cfg : Cfg) (opts : Options) (limit : 
     (hr : (run cfg realT (R.init opts limit flags input visible) ops).1.isReader = true)
     (hT : Terminal (run cfg realT (R.init opts limit flags input visible) ops).1) (hop : op.isCall = true) :
     let r := (run cfg realT (R.init opts limit flags input visible) ops).1
-    Terminal (step cfg realT r op).1 ∧ (step cfg realT r op).2.afterEnd op = true ∧
+    Terminal (step cfg realT r op).1 ∧ (step cfg realT r op).2.afterEnd op (r.sub.cur.isSome && r.sub.caf) = true ∧
     ((step cfg realT r op).2 = .done → op = .finish ∧ r.finished = false ∧ r.dec.state ≠ none) ∧
     (op ≠ .finish ∨ r.dec.state = none ∨ r.finished = true →
       (step cfg realT r op).1.dec = r.dec ∧ (step cfg realT r op).1.pos = r.pos) := by
@@ -113,7 +118,8 @@ theorem poisoned_absorbing_reachable_real (cfg : Cfg) (opts : Options) (limit : 
     let r := (run cfg realT (R.init opts limit flags input visible) ops).1
     (step cfg realT r op).1.dec = r.dec ∧ (step cfg realT r op).1.pos = r.pos ∧
     (step cfg realT r op).1.visible = r.visible ∧
-    ((step cfg realT r op).2.isErr = true ∨ (op.isRowCall = true ∧ (step cfg realT r op).2.isRowRes = true)) := by
+    ((step cfg realT r op).2.isErr = true ∨ (op.isRowCall = true ∧ (step cfg realT r op).2.isRowRes = true) ∨
+      (op.isFrameCall = true ∧ r.sub.cur.isSome = true ∧ r.sub.caf = true ∧ (step cfg realT r op).2.isFrame = true)) := by
   obtain ⟨hI, hk⟩ := reachable_states_satisfy_inv_real cfg opts limit flags input visible ops hlen hops hr
   exact poisoned_absorbing_real cfg _ op hI hk hr hd hop
 
